@@ -133,10 +133,21 @@ def run_obligation(ctx, ob, cfg):
                 res.out_of_bound += 1
                 if not getattr(ob, 'allow_out_of_bound', False):
                     res.inconclusive.append('unwinding/size bound exceeded: %s' % payload)
-                continue
-            ip = holder['ip']
-            kind, r = payload
-            if kind == 'panic':
+                    continue
+                hook = getattr(ob, 'on_out_of_bound', None)
+                if hook is None:
+                    continue
+                ip = holder['ip']
+                kind, r = 'cut', None
+                items = hook(ip, p)
+            elif outcome == 'infeasible':
+                pass
+            elif True:
+                ip = holder['ip']
+                kind, r = payload
+            if kind == 'cut':
+                pass
+            elif kind == 'panic':
                 items = ob.on_panic(ip, p, r)
                 if items is None:
                     # a reachable panic: need a model of the path condition
